@@ -29,7 +29,7 @@ DIRECTED = ["lyric x", "section x", "x", "lyric", "section", "lyric ", "section 
 
 def required(tier):
     return ["kind:lyric", "kind:section", "kind:text", "kind:none", "inner_quote_in_lyric_or_section", "keyword_without_blank_is_text",
-            "empty_remainder", ">=2_kinds_in_one_chart", "repeated_tick"]
+            "empty_remainder", ">=2_kinds_in_one_chart", "repeated_tick", "concurrent_stage", "ticks_not_in_file_order_within_one_tempo_segment"]
 
 
 def shards(tier, seed):
@@ -47,6 +47,10 @@ def make_case(rng, i):
     if n >= 3 and rng.random() < 0.5:
         ticks[1] = ticks[0]
         ticks.sort()
+    if len(tempos) == 1 and n >= 2 and i % 2:
+        # one tempo segment: every hint is valid whatever the order of the lines, so "in file order" is decidable
+        # for lines whose ticks DEcrease as well ("forall ticks; forall line orders")
+        rng.shuffle(ticks)
     globals_, lines, texts = [], [], []
     for t in ticks:
         r = rng.random()
@@ -69,10 +73,12 @@ def make_case(rng, i):
 
 def run_shard(shard, rec, tier, seed):
     harness.setup()
+    keep = mcheck.Keep()
     for i in range(shard["count"]):
         rng = harness.rng_for(seed, ID, shard["name"], i)
         case, texts, ticks = make_case(rng, i)
         out, ob, d = mcheck.judge(rec, ("C09",), case)
+        keep.add(case)
         if d is not None and not d.of("C09"):
             kinds = set()
             for raw, kind in texts:
@@ -89,10 +95,14 @@ def run_shard(shard, rec, tier, seed):
                 rec.cls(">=2_kinds_in_one_chart")
             if len(set(ticks)) < len(ticks):
                 rec.cls("repeated_tick")
+            if any(a > b for a, b in zip(ticks, ticks[1:])):
+                rec.cls("ticks_not_in_file_order_within_one_tempo_segment")
         if i < 2:
             rec.sample({"events_section": [ln for ln in case["text"].splitlines() if " = E " in ln][:8]})
         if rec.full:
             break
+    if not rec.full:
+        mcheck.threaded_stage(rec, ("C09",), keep.cases)
     harness.finish(rec)
 
 
